@@ -106,4 +106,21 @@ PROPS = {
             "decode_eof is not exercised",
         ],
     ),
+    "C13": dict(
+        coq_targets=["Props/C13.vo"],
+        harness=[dict(pkg="h_store", bin="c13", cases={"quick": 300, "thorough": 4000},
+                      checkers=["corr", "oracle", "known"], timeout=2400)],
+        allowed_axioms=[],
+        trusted_base=[
+            "RocksDB as three finite maps with seek + prefix_same_as_start over the fixed 8-byte prefix extractor and half-open delete_range; durability of acknowledged writes; the varint coding of ids and the merge operator are trusted (tied by correspondence across reopen)",
+            "HashMap / BTreeMap as association lists (read_map compared as sorted lists)",
+            "hook: swimos_server_app feature `verif` re-exports in_memory_store::{InMemoryPlanePersistence, InMemoryNodePersistence}",
+        ],
+        assumptions=[
+            "theorems cover the RocksDB key layout (injectivity, scan and range exactness, prefix stripping), lane isolation inside the map keyspace and identifier stability/uniqueness; the refinement of both back-ends to the (agent, item) -> value|map specification is checked by correspondence + oracle only (partial)",
+            "ids < 2^56 for the prefix scan (the allocator hands out at most one id per id_for call)",
+            "crash (SIGKILL) points are not exercised; reopen = drop the database handle and open the plane again",
+            "known finding C13-F1: '<agent>/<item>' names collide for distinct pairs when names contain '/'; histories with colliding pairs are excused by the decidable predicate name_collision",
+        ],
+    ),
 }
